@@ -2,14 +2,26 @@
 usage: mutprompt.py <PROP> [tag]"""
 import json, os, subprocess, sys
 pid = sys.argv[1]
-tag = sys.argv[2] if len(sys.argv) > 2 else ""
+tag = ""
+letters = sys.argv[2] if len(sys.argv) > 2 else "ab"      # e.g. "cd" for a second round
+import glob
+prior = []
+for mp in sorted(glob.glob(os.path.join(os.path.dirname(__file__), "..", "seeded", pid + "-*", "meta.json"))):
+    try:
+        prior.append(json.load(open(mp)).get("summary", "")[:300])
+    except Exception:
+        pass
 props = {json.loads(l)["id"]: json.loads(l) for l in open(os.path.join(os.path.dirname(__file__), "..", "properties.jsonl"))}
 p = props[pid]
 wt = f"/tmp/wt/{pid}{tag}"
 out = f"/tmp/wt/out-{pid}{tag}"
 if not os.path.exists(wt):
     subprocess.run(["git", "-C", "/repo", "worktree", "add", "-q", "--detach", wt, "HEAD"], check=True)
+else:
+    subprocess.run(["git", "-C", wt, "checkout", "-q", "--detach", "main"], check=True)
 os.makedirs(out, exist_ok=True)
+A, B = letters[0], letters[1]
+PRIOR = ("\n\nChanges of these kinds were already tried by others; find DIFFERENT ones (other functions, other parts of the statement, other trigger shapes):\n- " + "\n- ".join(prior)) if prior else ""
 print(f"""You are helping to evaluate a verification tool for the Python package hugr-py (in the CQCL/hugr repository). Your job is to write realistic BUGS, not fixes. Work only inside the scratch git worktree {wt} (a checkout of the repository) and write your results to {out}/. Do not read or write anything under /verif or /repo. There is no network.
 
 Property under test ({pid}): {p['title']}
@@ -17,12 +29,12 @@ Statement: {p['statement']}
 Quantifier: {p['quantifier']['text']}
 Relevant code: {', '.join(p['anchors']['files'])}
 
-Produce TWO independent changes, called a and b (each applies to the clean worktree on its own), to the hugr-py source (under hugr-py/src/hugr) such that each:
+Produce TWO independent changes, called {A} and {B} (each applies to the clean worktree on its own), to the hugr-py source (under hugr-py/src/hugr) such that each:
 1. breaks the property above (some input now violates its statement), while the code still imports and the existing test suite result is unchanged: `cd {wt} && /venv/bin/python -m pytest -q -p no:cacheprovider --timeout=900 2>&1 | tail -1` must still print exactly the same counts as on the clean tree (`29 failed, 180 passed, 1 skipped, 10 errors`; those 39 non-passing tests need an absent Rust binary and are the baseline);
 2. is realistic: the kind of slip a maintainer could make in a refactoring or an optimisation (an off-by-one, a wrong default, a lost field, an early return, a swapped argument, a cache that is not invalidated, a condition that is slightly too weak), not sabotage, and at most ~15 changed lines;
-3. needs something SPECIFIC to manifest: a particular multi-step sequence of operations, an unusual input shape, a boundary value, or two cooperating sites that each look fine alone — ordinary use (the common path every caller exercises) must keep working. Prefer a and b to break different parts of the statement through different code.
+3. needs something SPECIFIC to manifest: a particular multi-step sequence of operations, an unusual input shape, a boundary value, or two cooperating sites that each look fine alone — ordinary use (the common path every caller exercises) must keep working. Prefer {A} and {B} to break different parts of the statement through different code.{PRIOR}
 
-For each change x in {{a, b}} write:
+For each change x in {{{A}, {B}}} write:
 - {out}/patch_x.diff — `git diff` of the change against the clean worktree (applies with `git apply`);
 - {out}/demo_x.py — a small standalone program using only hugr-py's public API that exits 0 on the clean worktree and exits non-zero (assert failure) with the change applied; run as `cd {wt} && PYTHONPATH={wt}/hugr-py/src PYTHONHASHSEED=0 /venv/bin/python {out}/demo_x.py`;
 - {out}/meta_x.json — {{"summary": what was changed, "needs_to_manifest": what input/sequence triggers it, "files": [...], "suite_result_line": the pytest tail line with the change applied}}.
